@@ -47,3 +47,9 @@ Proof.
       destruct (Qle_bool y x) eqn:E1; [|now left]. destruct (Qle_bool x y) eqn:E2; [|now right].
       apply Qle_bool_iff in E1, E2. assert (x == y) by lra. apply Qeq_bool_iff in H1. congruence.
 Qed.
+
+(* extended-number dictionary over Q for the functions that use only abs / neg (no infinities, no square root):
+   the remaining fields are placeholders and no theorem depends on them *)
+Definition Qx : xnum := {|
+  base := Qn; pinf := 0; ninf := 0; qnan := 0; isnan := fun _ => false;
+  absx := Qabs; negx := Qopp; sqrtx := fun x => x |}.
